@@ -7,6 +7,22 @@ PY = '/venv/bin/python -B -m vf.run'
 
 # id -> (engine, category, technique, level text, level_note, design_ref)
 CHECKS = {
+ 'C17': ('FX', 'fault_enumeration',
+         'enumeration of every driver-call index x fault class (and real fork crashes) over write programs, judged against the committed snapshots of the fault-free run',
+         'Write programs of depth <= 3 (creates, updates, cascading deletes, many-to-many links, raw db.execute statements, optional commit() in the middle, guarded commit/raw statements) x {optimistic, immediate, serializable} x every driver-call index x {OperationalError, IntegrityError, InterfaceError, lost acknowledgement} on the real SQLite engine with the default rollback journal; an observer connection reads the committed rows before every call (what abandoning the connection there leaves) and forked children os._exit at chosen calls (hot journals replayed). Oracle: the committed rows equal snapshot S_a, or S_a+1 only if a driver commit was issued since the last acknowledgement, and the injected error leaves the session. PostgreSQL path: the real PGProvider and core.py on a fake psycopg2 connection with autocommit flag and statement log, 5 fault classes including reconnectable ones: no write with autocommit on, the writes of a commit interval sit in one transaction which is the one committed.',
+         'Process death only (no power-loss / fsync model). PostgreSQL is MODEL-BASED; server-side behaviour and the MySQL reconnect path are out of reach. Thorough adds fault pairs and more fork crashes; its full size (about 170k plans) was run as a 1/9 sample in this sandbox.', 'DESIGN.md section 3 C17'),
+ 'C19': ('FX+TX', 'fault_enumeration',
+         'enumeration of every driver-call index x fault class over 19 session shapes x pool states with lock/pool/session-state post-conditions, plus thread schedules with one faulted session',
+         '19 session shapes (read-only, optimistic, immediate, serializable, strict, ddl with create/drop, raw execute/insert/select, get_connection() user transaction, nested, generator run/closed/thrown into, commit/rollback inside, allowed exception, retry, two sessions in a row, disconnect) x {cold pool, warm pool, fresh thread} x every driver-call index x 3 fault classes + lost acknowledgement (thorough: all fault pairs x 9 class combinations). Afterwards: transaction lock not held, pooled connection absent or idle, close at most once per connection and exactly once when dropped, no session state left, a following write session in the same thread and in a new thread succeeds without blocking. Schedule part (TX engine): 2-3 threads, one suffering a fault at its k-th call: no deadlock, unfaulted sessions commit.',
+         'SQLite provider only; a violation is reported only if it reproduces on a second execution.', 'DESIGN.md section 3 C19'),
+ 'C24': ('QX', 'exploration',
+         'bounded-exhaustive enumeration of query-method chains with all bounds against list semantics of the predecessor result',
+         '20 base queries (entities, value/tuple projections with duplicates, joins, grouped, aggregate-only) over data sets of 0-4 rows with ties, duplicates and None x all method chains of length <= 2 (thorough: restricted length 3) over {slices, limit, page, first, get, exists, count, sum/min/max/avg/group_concat, distinct/without_distinct, 9 filter/where forms, 11 order_by/sort_by forms, order_by(None), random, iteration over / membership in a limited subquery, delete bulk or not} with all bounds 0..n+1: every step equals the Python list operation on the actual result of its predecessor (cross-checked with the QX evaluator for the base); positions are demanded only under total orders; deletes are judged on a fresh-session dump.',
+         'SQLite only. Length-3 chains are restricted (n <= 3 data sets, 15 bases, reduced grids) as stated in coverage.length_3_chains. Exceptions are refusals and counted.', 'DESIGN.md section 3 C24'),
+ 'C29': ('QX', 'exploration',
+         'bounded-exhaustive enumeration of JSON documents and arrays x query operations x JSON1 on/off against the operation on the decoded value',
+         '2,847 JSON documents (quick: a stated 229-document covering subset) of nesting <= 2 over keys {a, "b c", q"t, "1"} and 7 scalars, and all 40 Int/Str/Float arrays of length <= 3, x 1,883 operations (path access by key/index/negative index/parameter, six comparison operators with each scalar type as constant and parameter, None tests, truthiness, len, key/item membership, array index/slice/in/subset/len/equality) executed on SQLite with JSON1 and with json1_available=False (Python fallback UDFs): the result equals the operation on the decoded Python value under the typed three-valued rules.',
+         'PostgreSQL/MySQL JSON SQL is only rendered (undecided). Where Python raises or JSON typing differs from Python (False == 0, bool ordering, substring on a string) either answer is accepted and counted.', 'DESIGN.md section 3 C29'),
  'C20': ('TX', 'model_checking',
          'stateless exploration of real thread schedules (cooperative baton passing, iterative preemption bounding) with commit-order monitors',
          '38 session programs over two shared rows (read-modify-write, read-a-write-b, blind writes, float / optimistic=False / volatile control groups, reads through select/get, get_for_update, non-optimistic sessions, delete, create): quick = preemption bound 2 inside a 22-program core, bound 1 for the other of 741 pairs, three sessions at bound 1; thorough = all interleavings of the pairs and three sessions at bound 3. Monitors at every scheduling point with an independent observer connection: stale read at commit, per-row composition in commit order (no committed update lost), rows change only in commits of sessions that end OK, a failing optimistic check is justified by a committed change of a checked column. PostgreSQL: the UPDATE WHERE clause emitted by the real PGProvider covers the read set (statement-log model).',
@@ -147,6 +163,7 @@ def main():
                  dict(name='SX', path='vf/engines/sx.py', serves_properties=[], kind_free_text='session explorer: explicit-state BFS over operation histories on the real session cache, canonical-state deduplication, twin executions as oracles'),
                  dict(name='QX', path='vf/engines/qx.py', serves_properties=[], kind_free_text='query-space enumerator with a typed three-valued reference evaluator'),
                  dict(name='TX', path='vf/engines/tx.py', serves_properties=[], kind_free_text='stateless explorer of real thread schedules: baton passing at driver calls and provider locks, iterative preemption bounding, deadlock detection, replay determinism check'),
+                 dict(name='FX', path='vf/engines/fx.py', serves_properties=[], kind_free_text='fault and crash enumerator over numbered driver calls (error classes, lost acknowledgements, observer crash, fork + os._exit)'),
                  dict(name='VX', path='vf/props', serves_properties=[], kind_free_text='bounded-exhaustive value/declaration/expression enumerators'),
                  dict(name='DM', path='vf/engines/dm.py', serves_properties=['C02', 'C06', 'C25'], kind_free_text='dialect models: capture databases on stub drivers + SQLite substrate with documented function semantics'),
              ],
